@@ -50,6 +50,7 @@ type node struct {
 	name     string // key under parent's $defs
 	children []*node
 	id       string // $id spelling ("" = none)
+	idHash   bool   // the $id is written with a trailing empty fragment ("x.json#"), which changes nothing
 	base     refmodel.URI
 	resource *node
 	anchor   string
@@ -101,10 +102,10 @@ func Gen(t *rapid.T) *Universe {
 	}
 	rootRetrieval := ""
 	if g.hasBase {
-		rootRetrieval = rapid.SampledFrom([]string{"http://h.test/root.json", "http://h.test/dir/root.json", "http://h.test/a/b/root.json"}).Draw(t, "rooturi")
+		rootRetrieval = rapid.SampledFrom([]string{"http://h.test/root.json", "http://h.test/dir/root.json", "http://h.test/a/b/root.json", "http://h.test/dir/root.json", "http://p.test", "http://p.test/", "http://h.test/dir/"}).Draw(t, "rooturi")
 	}
 	g.newDoc(rootRetrieval, true)
-	remoteURIs := []string{"http://h.test/a.json", "http://h.test/dir/b.json", "http://other.test/c.json", "http://h.test/a/b/d.json", "http://h.test/dir/sub/e.json"}
+	remoteURIs := []string{"http://h.test/a.json", "http://h.test/dir/b.json", "http://other.test/c.json", "http://h.test/a/b/d.json", "http://h.test/dir/sub/e.json", "http://q.test"}
 	for i := 0; i < nRemote; i++ {
 		g.newDoc(remoteURIs[(i+g.n(len(remoteURIs), "remoteuri"))%len(remoteURIs)], false)
 	}
@@ -208,6 +209,9 @@ func (g *gen) buildTree(d *doc) {
 			root.base = refmodel.ParseURI(cand)
 		}
 	}
+	if root.id != "" && g.n(6, "idhash") == 0 {
+		root.idHash = true
+	}
 	if g.n(3, "rootanchor") == 0 {
 		root.anchor = rapid.SampledFrom(anchorNames).Draw(g.t, "anchor")
 	}
@@ -253,6 +257,7 @@ func (g *gen) addChildren(p *node, depth int) {
 					c.id = id
 					c.base = nb
 					c.resource = c
+					c.idHash = g.n(6, "idhash") == 0
 				}
 			}
 		}
@@ -350,6 +355,13 @@ func (g *gen) relativise(base refmodel.URI, abs string) (string, string) {
 	if opaque(base) || opaque(a) || !base.IsAbs() || base.Scheme != a.Scheme || base.Authority != a.Authority {
 		return abs, "absolute"
 	}
+	if a.Path == "" {
+		// a target URI without a path can only be spelled with its authority
+		if g.n(2, "nopath") == 0 {
+			return "//" + a.Authority + frag, "network-path"
+		}
+		return abs, "absolute"
+	}
 	switch g.n(8, "relkind") {
 	case 0:
 		return abs, "absolute"
@@ -376,10 +388,10 @@ func (g *gen) relativise(base refmodel.URI, abs string) (string, string) {
 	afile := a.Path[strings.LastIndex(a.Path, "/")+1:]
 	bsegs := strings.Split(strings.Trim(bdir, "/"), "/")
 	asegs := strings.Split(strings.Trim(adir, "/"), "/")
-	if bdir == "/" {
+	if bdir == "/" || bdir == "" {
 		bsegs = nil
 	}
-	if adir == "/" {
+	if adir == "/" || adir == "" {
 		asegs = nil
 	}
 	i := 0
@@ -395,6 +407,13 @@ func (g *gen) relativise(base refmodel.URI, abs string) (string, string) {
 	if strings.HasPrefix(rel, "../") {
 		kind = "relative-dotdot"
 	}
+	if rel == "" {
+		// the target is the directory of the base itself
+		if g.n(2, "dirself") == 0 {
+			return "./" + frag, "relative-dot"
+		}
+		return abs, "absolute"
+	}
 	switch g.n(5, "decorate") {
 	case 0:
 		if !strings.HasPrefix(rel, "../") {
@@ -404,9 +423,6 @@ func (g *gen) relativise(base refmodel.URI, abs string) (string, string) {
 		if !strings.HasPrefix(rel, "../") {
 			rel, kind = "zz/../"+rel, "relative-dot-segments"
 		}
-	}
-	if rel == "" {
-		return abs, "absolute"
 	}
 	return rel + frag, kind
 }
@@ -445,7 +461,11 @@ func (g *gen) chooseRefs(rf *node) {
 func (g *gen) render(n *node) *jv.V {
 	v := jv.ObjV()
 	if n.id != "" {
-		v.Set("$id", jv.StrV(n.id))
+		if n.idHash {
+			v.Set("$id", jv.StrV(n.id+"#"))
+		} else {
+			v.Set("$id", jv.StrV(n.id))
+		}
 	}
 	if n.anchor != "" {
 		v.Set("$anchor", jv.StrV(n.anchor))
